@@ -510,20 +510,28 @@ qlisttbl_data_t *qlisttbl_getmulti(qlisttbl_t *tbl, const char *name, bool newme
 
     qlisttbl_obj_t obj;
     memset((void *)&obj, 0, sizeof(obj)); // must be cleared before call
+    bool nomem = false;
     qlisttbl_lock(tbl);
     while (tbl->getnext(tbl, &obj, name, newmem) == true) {
         numfound++;
 
         // allocate object array.
         if (numfound >= allocobjs) {
-            if (allocobjs == 0) allocobjs = 10;  // start from 10
-            else allocobjs *= 2;  // double size
-            objs = (qlisttbl_data_t *)realloc(objs, sizeof(qlisttbl_data_t) * allocobjs);
-            if (objs == NULL) {
+            size_t newalloc = (allocobjs == 0) ? 10 : (allocobjs * 2);
+            qlisttbl_data_t *newobjs = (qlisttbl_data_t *)realloc(objs, sizeof(qlisttbl_data_t) * newalloc);
+            if (newobjs == NULL) {
                 DEBUG("qlisttbl->getmulti(): Memory reallocation failure.");
-                errno = ENOMEM;
+                // drop the element just fetched; the old array is still valid
+                if (newmem == true) {
+                    free(obj.name);
+                    free(obj.data);
+                }
+                numfound--;
+                nomem = true;
                 break;
             }
+            objs = newobjs;
+            allocobjs = newalloc;
         }
 
         // copy reference
@@ -542,14 +550,26 @@ qlisttbl_data_t *qlisttbl_getmulti(qlisttbl_t *tbl, const char *name, bool newme
         memset((void *)newobj, '\0', sizeof(qlisttbl_data_t));
         newobj->type = 0;  // mark, end of objects
     }
+    if (nomem == false && errno == ENOMEM) {
+        nomem = true;  // getnext() could not copy an element
+    }
     qlisttbl_unlock(tbl);
+
+    if (nomem == true) {
+        // report the failure rather than a partial result
+        qlisttbl_freemulti(objs);
+        objs = NULL;
+        numfound = 0;
+    }
 
     // return found counter
     if (numobjs != NULL) {
         *numobjs = numfound;
     }
 
-    if (numfound == 0) {
+    if (nomem == true) {
+        errno = ENOMEM;
+    } else if (numfound == 0) {
         errno = ENOENT;
     }
 
